@@ -6,7 +6,7 @@ Theorems: coq/C31/P_*.v.  Tie: (A) every primitive called directly on explicit s
 complete coefficient maps.  Oracle (driver): independent exact Taylor/Laurent coefficients."""
 import vlib
 
-PROOF_MODULES = []   # the C31 files are compiled directly (see the report); not yet in _CoqProject
+PROOF_MODULES = ["C31/VisitorProofs.vo", "C31/Compose.vo", "C31/SeriesProofs.vo"]
 OBLIGATIONS = [
     "C31/P_mul_spec.v", "C31/P_pow_spec.v", "C31/P_step_list.v", "C31/P_invert_spec.v", "C31/P_invert_congruence.v",
     "C31/P_log_spec.v", "C31/P_atan_spec.v", "C31/P_atanh_spec.v", "C31/P_exp_spec.v", "C31/P_nthroot_spec.v",
